@@ -67,6 +67,8 @@ func uninterpDecls() string {
 (assert (is_space 133))
 (assert (is_space 160))
 (assert (forall ((s Str) (t Str)) (! (and (<= (- 1) (str_index s t)) (=> (<= 0 (str_index s t)) (<= (+ (str_index s t) (slen t)) (slen s)))) :pattern ((str_index s t)))))
+(assert (forall ((s Str) (t Str) (k Int)) (! (=> (and (<= 0 (str_index s t)) (<= 0 k) (< k (slen t))) (= (sat s (+ (str_index s t) k)) (sat t k))) :pattern ((sat s (+ (str_index s t) k))))))
+(assert (forall ((s Str) (t Str) (j Int)) (! (=> (and (= (slen t) 1) (<= 0 j) (< j (ite (>= (str_index s t) 0) (str_index s t) (slen s)))) (not (= (sat s j) (sat t 0)))) :pattern ((str_index s t) (sat s j)))))
 (assert (forall ((s Str) (t Str)) (! (and (<= (- 1) (str_lastindex s t)) (=> (<= 0 (str_lastindex s t)) (<= (+ (str_lastindex s t) (slen t)) (slen s)))) :pattern ((str_lastindex s t)))))
 (assert (forall ((s Str) (t Str)) (! (>= (str_count s t) 0) :pattern ((str_count s t)))))
 (assert (forall ((s Str)) (! (and (<= 0 (rune_count s)) (<= (rune_count s) (slen s))) :pattern ((rune_count s)))))
